@@ -54,8 +54,23 @@ MAXWARN = {
     'feature:2 then feature:1': [['missing-feature:2'], ['missing-feature:1']],
 }
 OUTPUTS = {'x': ['-x', 'cg.pdb'], 'x+o': ['-x', 'cg.pdb', '-o', 'topol.top']}
-EXTRA = {'none': [], 'graph': ['-write-graph', 'graph.pdb'], 'ffwarn': ['-ff-dir', 'extra_ff']}
-MAXWARN.update({'3': [['3']], '4': [['4']], 'model:3': [['model:3']], 'model': [['model']]})
+EXTRA = {'none': [], 'graph': ['-write-graph', 'graph.pdb'], 'ffwarn': ['-ff-dir', 'extra_ff'],
+         'blockwarn': ['-ff-dir', 'extra_ff', '-map-dir', 'extra_map']}
+# a force-field extension that re-defines the ALA block with a [ warning ]: one warning per alanine residue of the input
+BLOCK_MARK = 'are provisional (verif block warning)'
+BLOCK_FF = '''[ moleculetype ]
+ALA 1
+[ atoms ]
+ 1 SP2 1 ALA BB  1 0
+ 2 TC3 1 ALA SC1 2 0
+[ bonds ]
+ BB SC1 1 0.270 100000
+[ warning ]
+The alanine parameters of residue {BB[resname]}{BB[resid]} %s.
+''' % BLOCK_MARK
+MAXWARN.update({'3': [['3']], '4': [['4']], 'model:3': [['model:3']], 'model': [['model']], 'model:4': [['model:4']],
+                # an explicit budget of zero for one type is a number, not "waive the type"
+                'alt:0': [['pdb-alternate:0']], 'general:0': [['general:0']], 'model:0': [['model:0']]})
 # a force-field extension whose link carries a [ warning ]: it applies once per pair of consecutive residues, so a
 # peptide of N residues gives N - 1 warnings (counted here from the input, not from what the program logged)
 LINK_MARK = 'has no parameters (verif link warning)'
@@ -104,6 +119,14 @@ def prepare(base, run, tag):
         os.makedirs(os.path.join(work, 'extra_ff', 'martini3001'))
         with open(os.path.join(work, 'extra_ff', 'martini3001', 'warn.ff'), 'w') as handle:
             handle.write(LINK_FF)
+    if run[4] == 'blockwarn':
+        os.makedirs(os.path.join(work, 'extra_ff', 'martini3001'))
+        os.makedirs(os.path.join(work, 'extra_map'))
+        with open(os.path.join(work, 'extra_ff', 'martini3001', 'ala_warn.ff'), 'w') as handle:
+            handle.write(BLOCK_FF)
+        # the mapping has to be read again so that it refers to the new block
+        shutil.copy(os.path.join(common.REPO, 'vermouth', 'data', 'mappings', 'martini3001', 'ala.charmm36.map'),
+                    os.path.join(work, 'extra_map', 'ala.charmm36.map'))
     return work
 
 
@@ -160,7 +183,11 @@ def one_run(base, run, acc, tag='r', prop='C07'):
                          files=sorted(after)) if acc.states % 97 == 0 else None)
     sig = None
     n_link = sum(1 for level, typ, message in collector.records if level >= logging.WARNING and LINK_MARK in message)
-    if run[4] == 'ffwarn' and n_link != N_RES - 1:
+    n_block = sum(1 for level, typ, message in collector.records if level >= logging.WARNING and BLOCK_MARK in message)
+    if run[4] == 'blockwarn' and n_block != N_RES:
+        sig, desc = 'cli:block-warning-not-per-residue', ('the warning of a force-field block that builds %d residues was logged %d time(s): every '
+                                                         'residue counts against -maxwarn' % (N_RES, n_block))
+    elif run[4] == 'ffwarn' and n_link != N_RES - 1:
         sig, desc = 'cli:link-warning-not-per-match', ('the warning of a force-field link that applies %d times was logged %d time(s): '
                                                       'every application counts against -maxwarn' % (N_RES - 1, n_link))
     elif sum(1 for level, typ, _ in collector.records if level >= logging.WARNING and typ == 'pdb-alternate') != (
@@ -204,12 +231,16 @@ def all_runs(tier, focus):
         if tier == 'quick':
             switches = ['none', 'scfix', 'ed', 'ed+collagen']
             maxwarns = ['absent', '1', '5', 'alt', 'alt:1', 'alt:2', 'general', 'other-type', '5 then 1', 'alt:2 alt:1']
-    if 'ffwarn' in extras:
-        extras.remove('ffwarn')
+    for special in ('ffwarn', 'blockwarn'):
+        if special in extras:
+            extras.remove(special)
     runs = list(itertools.product(inputs, switches, maxwarns, outs, extras))
     if focus != 'maxwarn':
         ffw = ['absent', '1', '3', '4', '5', 'model', 'model:3', 'other-type', 'general']
         runs += [('clean', 'none', mw, 'x+o', 'ffwarn') for mw in ffw] + [('alt1', 'scfix', mw, 'x', 'ffwarn') for mw in ffw[:6]]
+        runs += [('clean', 'none', mw, 'x+o', 'blockwarn') for mw in ('absent', '4', '5', 'model:4', 'model', 'model:0')]
+        runs += [('alt1', 'none', 'alt:0', 'x', 'none'), ('alt2', 'scfix', 'general:0', 'x+o', 'none'), ('alt2', 'none', 'alt:0', 'x', 'graph'),
+                 ('clean', 'scfix', 'general:0', 'x', 'none'), ('clean', 'none', 'model:0', 'x', 'ffwarn')]
     return runs
 
 
